@@ -33,6 +33,11 @@ a pooled response is referenced by no pending map and its channel is empty): a c
 healthy connection keeps waiting for its own reply and gets it. -/
 def kstale (_ : Tokens) : String := "formed=1 early=0 own=1 hung=0"
 
+/-- kearly: replies that arrive while their request is still being written: `ClientMux.send`
+registers the slot before the request leaves (one label), so whoever holds the token finds it
+(`demux`): every call returns its own reply. -/
+def kearly (t : Tokens) : String := s!"aok=1 bok={t.nat "quick"} hung=0"
+
 /-- kalias: a request held in its backend call while later frames are received and decoded keeps its
 arguments (a decoded message is a function of its own frame: `Wire` codec, C18 `decode_into_recycled`)
 and is answered. -/
